@@ -785,6 +785,10 @@ func (p *Parser) parseSelectStatement() (ast.Statement, error) {
 			if len(joins) == 0 {
 				// First join: A JOIN B
 				leftTable = joinBase
+				// A derived table's body stays with its FROM item only: a second
+				// reference to the same sub-query makes every traversal visit it
+				// twice per nesting level (exponential in the nesting depth).
+				leftTable.Subquery = nil
 			} else {
 				// Subsequent joins: (previous result) JOIN C
 				// We represent this by using a synthetic table reference that indicates
